@@ -98,7 +98,7 @@ func CheckC17(c *Ctx) {
 			add(v.Canonical(a))
 		}
 		for len(inputs) < c.Pick(2000, 25_000) {
-			a := gen.SparseAssign(r, v, r.Intn(5), 4)
+			a := gen.MixedAssign(r, v)
 			s, _ := gen.RandomSpelling(r, v, a)
 			add(s)
 		}
